@@ -123,7 +123,7 @@ class Adapter(EnvAdapter):
                 # Sudoku() with no argument: 10000 puzzles of mixed difficulty (25..77 clues)
                 c("mixed", "mixed", 6, probe_every=6, probe_cap=64, policies=play),
                 # the registered Sudoku-very-easy-v0 (>= 46 clues)
-                c("veasy", "very-easy", 12, probe_every=3, probe_cap=64, policies=play),
+                c("veasy", "very-easy", 12, probe_every=4, probe_cap=64, policies=play),
                 # the debugging generator: one fixed 17-clue puzzle, 64 steps to completion
                 c("dummy", "dummy", 4, probe_every=12, probe_cap=48,
                   policies=["solve", "masked", "solve_then_invalid", "solve_then_wrong"]),
